@@ -43,3 +43,55 @@ func c06NoAbsent(msg *Message) {
 		}
 	}
 }
+
+func init() {
+	vsymHarnesses["HarnessC06Template"] = HarnessC06Template
+}
+
+// HarnessC06Template: near-valid frames whose length/count field is D arbitrary bytes (so every
+// boundary integer with D characters, signs and junk are inside the quantifier), followed by a few
+// arbitrary bytes, with the stream ending anywhere.
+func HarnessC06Template() {
+	kind := vsymParam("kind")
+	D := vsymParamInt("D", 1)
+	var in []byte
+	switch kind {
+	case "bulk":
+		in = append(in, '$')
+	case "array":
+		in = append(in, '*')
+	case "nested":
+		in = append(in, '*', '1', '\r', '\n', '*')
+	}
+	field := vsymBytes("len", D)
+	if vsymParam("digits") == "1" {
+		// decimal field: optional sign, then digits (arbitrary junk in the field is covered by HarnessC06Bytes)
+		for i, b := range field {
+			if i == 0 && D > 1 {
+				vsymAssume(b == '-' || b == '+' || (b >= '0' && b <= '9'))
+			} else {
+				vsymAssume(b >= '0' && b <= '9')
+			}
+		}
+	}
+	in = append(in, field...)
+	in = append(in, '\r', '\n')
+	tail := vsymLen("tail", vsymParamInt("tail", 2))
+	in = append(in, vsymBytes("tail", tail)...)
+	vsymUnwind(4*len(in) + 24)
+	p := NewParserWithBytes(in)
+	for i := 0; i <= len(in); i++ {
+		msg, err := p.Next()
+		if err != nil {
+			vsymCover("error")
+			break
+		}
+		if msg == nil {
+			vsymCover("eos")
+			break
+		}
+		vsymCover("value")
+		c06NoAbsent(msg)
+	}
+	vsymCover("end")
+}
